@@ -115,6 +115,9 @@ func c16RunHistory(v *c16Vec, customCache bool) []c16Obs {
 	}
 	set := jet.NewSet(&recLoader{fl, rec}, opts...)
 	var out []c16Obs
+	// the including template is parsed once per history and held by the caller (Parse caches nothing): every
+	// execution of it looks the included name up again
+	includer := map[string]*jet.Template{}
 	for _, op := range v.Hist {
 		rec.calls = nil
 		var o c16Obs
@@ -125,14 +128,18 @@ func c16RunHistory(v *c16Vec, customCache bool) []c16Obs {
 			t, err := set.GetTemplate(op.N)
 			o = c16Observe(t, err)
 		case "ExecInclude":
-			t, err := set.Parse("/zinc", `{{include "`+op.N+`"}}`)
-			if err != nil {
-				o = c16Obs{Err: "harness: " + err.Error()}
-				break
+			t := includer[op.N]
+			if t == nil {
+				var err error
+				if t, err = set.Parse("/zinc", `{{include "`+op.N+`"}}`); err != nil {
+					o = c16Obs{Err: "harness: " + err.Error()}
+					break
+				}
+				includer[op.N] = t
 			}
 			rec.calls = nil
 			var b bytes.Buffer
-			err = safeExecute(t, &b, nil, nil)
+			err := safeExecute(t, &b, nil, nil)
 			o.OK = err == nil
 			if err != nil {
 				o.Err = err.Error()
